@@ -3,6 +3,7 @@ use crate::core::PropertyDef;
 pub mod c01;
 pub mod c02;
 pub mod c03;
+pub mod c20;
 pub mod catalogue;
 pub mod c04;
 pub mod c05;
@@ -26,7 +27,7 @@ pub mod c09;
 pub mod c09_splice;
 
 pub fn all() -> Vec<PropertyDef> {
-    vec![c01::def(), c02::def(), c03::def(), c04::def(), c05::def(), c06::def(), c07::def(), c08::def(), c09::def(), c10::def(), c11::def(), c12::def(), c13::def(), c14::def(), c15::def(), c16::def(), c17::def(), c18::def(), c19::def()]
+    vec![c01::def(), c02::def(), c03::def(), c04::def(), c05::def(), c06::def(), c07::def(), c08::def(), c09::def(), c10::def(), c11::def(), c12::def(), c13::def(), c14::def(), c15::def(), c16::def(), c17::def(), c18::def(), c19::def(), c20::def()]
 }
 
 pub fn lookup(id: &str) -> Option<PropertyDef> {
